@@ -38,13 +38,16 @@ fn show_ops(h: &[Op]) -> Vec<String> {
         .collect()
 }
 
-const POOL: [&str; 3] = ["1", "1u", "2"];
+/// 1 and 1u are equal but distinguishable, 1 and 2 differ, and null is a value like any other (a
+/// name bound to null is bound)
+const POOL: [&str; 4] = ["1", "1u", "2", "null"];
 
 fn pool_value(k: usize) -> Value {
     match k {
         0 => Value::Int(1),
         1 => Value::UInt(1),
-        _ => Value::Int(2),
+        2 => Value::Int(2),
+        _ => Value::Null,
     }
 }
 
@@ -63,7 +66,7 @@ fn depth_of(h: &[Op]) -> usize {
 fn enabled(h: &[Op]) -> Vec<Op> {
     let d = depth_of(h);
     let mut v = vec![];
-    for k in 0..3 {
+    for k in 0..4 {
         for n in 0..3 {
             // the two define APIs alternate over the pool so that the alphabet stays small
             v.push(Op::Define(n, (n + k) % 2 == 1, k));
@@ -103,6 +106,7 @@ fn observe(ctx: &Context, progs: &Progs) -> Result<Vec<String>, String> {
         out.push(match g {
             Ok(Value::Int(i)) => format!("{}", i),
             Ok(Value::UInt(i)) => format!("{}u", i),
+            Ok(Value::Null) => "null".into(),
             Ok(other) => format!("?{:?}", other),
             Err(ExecutionError::UndeclaredReference(x)) if x.as_str() == NAMES[n] => "undeclared".into(),
             Err(e) => format!("err:{:?}", e),
@@ -111,6 +115,7 @@ fn observe(ctx: &Context, progs: &Progs) -> Result<Vec<String>, String> {
         out.push(match p {
             Out::Val(MV::Int(i)) => format!("{}", i),
             Out::Val(MV::Uint(i)) => format!("{}u", i),
+            Out::Val(MV::Null) => "null".into(),
             Out::Err(EC::Undeclared(x)) if x == NAMES[n] => "undeclared".into(),
             other => format!("?{}", other.show()),
         });
@@ -414,8 +419,10 @@ fn part_b_profile(run: &mut Run, profile: &str, vals: [MV; 3]) {
     //      the innermost body reads all three names (each level iterates a different constant, so
     //      the value read identifies the binding level)
     run.sub(&format!("shadow-chains-{}", profile));
-    for d in 3..=4usize {
+    // (one level may iterate over `null`: a name bound to null is bound)
+    for d in 2..=4usize {
         for code in 0..3usize.pow(d as u32) {
+          for null_level in 0..=d {
             if !run.take() {
                 continue;
             }
@@ -424,7 +431,7 @@ fn part_b_profile(run: &mut Run, profile: &str, vals: [MV; 3]) {
             for lvl in (0..d).rev() {
                 let var = c % 3;
                 c /= 3;
-                let range = E::Lit(MV::List(vec![MV::Int(100 * (lvl as i64 + 1))]));
+                let range = E::Lit(MV::List(vec![if lvl == null_level { MV::Null } else { MV::Int(100 * (lvl as i64 + 1)) }]));
                 e = macro_of("map", range, NAMES[var], e);
             }
             let e = E::List(vec![e, nm(0), nm(1), nm(2)]);
@@ -446,6 +453,7 @@ fn part_b_profile(run: &mut Run, profile: &str, vals: [MV; 3]) {
                     );
                 }
             }
+          }
         }
     }
     let _ = classify_err;
